@@ -9,15 +9,20 @@ import (
 	"syscall"
 
 	"github.com/douban/gobeansdb/loghub"
+	"github.com/douban/gobeansdb/verifhook"
 )
 
 func Remove(path string) error {
 	loghub.ErrorLogger.Logf(loghub.INFO, "remove path: %s", path)
+	verifhook.Point("fs.remove.before", path)
+	defer verifhook.Point("fs.remove.after", path)
 	return os.Remove(path)
 }
 
 func Rename(path, newpath string) error {
 	loghub.ErrorLogger.Logf(loghub.INFO, "rename path: %s to %s", path, newpath)
+	verifhook.Point("fs.rename.before", path, newpath)
+	defer verifhook.Point("fs.rename.after", path, newpath)
 	return os.Rename(path, newpath)
 }
 
